@@ -184,7 +184,44 @@ def _glog_gen():
     return layout + "\n" + skel
 
 
-GEN_BUILDERS = [_glog_gen]
+def lean_rat(fr: Fraction) -> str:
+    return f"(({fr.numerator} : Rat) / {fr.denominator})"
+
+
+def _in_consts(node):
+    """the constant lists of `x in [...]` tests below ``node`` in source order"""
+    out = []
+    for n in ast.walk(node):
+        if isinstance(n, ast.Compare) and len(n.ops) == 1 and isinstance(n.ops[0], ast.In) and isinstance(n.comparators[0], ast.List):
+            out.append((n.lineno, n.col_offset, [e.value for e in n.comparators[0].elts]))
+    return [c for _, _, c in sorted(out)]
+
+
+def _vasp_gen():
+    from iodata.utils import angstrom, electronvolt
+
+    tree = ast.parse(_src("chgcar"))
+    hdr = _func(tree, "_load_vasp_header")
+    grid = _func(tree, "_load_vasp_grid")
+    lo = _func(tree, "load_one")
+    lp = _func(ast.parse(_src("locpot")), "load_one")
+    ins = _in_consts(hdr)
+    if len(ins) != 2:
+        raise LookupError("expected two `in [...]` tests in _load_vasp_header")
+    cw = _first(n for n in ast.walk(hdr) if isinstance(n, ast.Subscript) and isinstance(n.slice, ast.Slice)
+                and isinstance(n.value, ast.Call) and ast.unparse(n.value) == "line.split()")
+    if cw.slice.lower is not None or not isinstance(cw.slice.upper, ast.Constant):
+        raise LookupError("coordinate words are not `line.split()[:k]`")
+    cl = lambda cs: "[" + ", ".join(chars(c)[1:-1] for c in cs) + "]"  # noqa: E731
+    return (
+        f"def vaspL : Vasp.Layout := ⟨{cl(ins[0])}, {cl(ins[1])}, {cw.slice.upper.value}⟩\n\n"
+        "def vaspSkel : Vasp.Skel :=\n  ⟨" + lstrs(_flat(_body(hdr))) + ",\n   " + lstrs(_flat(_body(grid))) + ",\n   "
+        + lstrs(_flat(_body(lo))) + ",\n   " + lstrs(_flat(_body(lp))) + "⟩\n\n"
+        f"def vaspU : Vasp.Units := ⟨{lean_rat(Fraction(angstrom))}, {lean_rat(Fraction(electronvolt))}⟩\n"
+    )
+
+
+GEN_BUILDERS = [_glog_gen, _vasp_gen]
 
 
 def build_gen() -> str:
@@ -416,27 +453,198 @@ def glog_impl_line(raw):
     return "ok " + ";".join(parts)
 
 
+# ---------------------------------------------------------------------------------------------
+# exact rationals `n/d` (Lean `Rat`) and snapping of loaded doubles onto them
+
+def enc_rat(fr: Fraction) -> str:
+    return f"{fr.numerator}/{fr.denominator}"
+
+
+def dec_rat(s: str) -> Fraction:
+    n, d = s.split("/")
+    return Fraction(int(n), int(d))
+
+
+REL = Fraction(1, 2**40)
+
+
+def snap_list(vals, ref_tokens, floor=Fraction(0)):
+    """replace each loaded double by the reference token when it is within 2^-40 (relative; `floor` is the absolute
+    allowance for sums with cancellation) of the exact reference value; anything else is printed as `!<repr>`"""
+    vals = [float(v) for v in vals]
+    if len(vals) != len(ref_tokens):
+        return f"!shape{len(vals)}"
+    out = []
+    for v, tok in zip(vals, ref_tokens):
+        ref = dec_rat(tok)
+        ok = not (math.isnan(v) or math.isinf(v)) and abs(Fraction(v) - ref) <= REL * abs(ref) + floor
+        out.append(tok if ok else "!" + repr(v))
+    return ",".join(out) if out else "@"
+
+
+def fixed_text(x, d, w):
+    """`%w.df` text of the exact decimal ±man·10^-d"""
+    neg, man, exp = x
+    assert exp == -d
+    digits = str(man).zfill(d + 1)
+    return (("-" if neg else "") + digits[:-d] + "." + digits[-d:]).rjust(w)
+
+
+def rand_fixed(rng, d, int_digits, int_digits_neg=None):
+    """a `%w.df` number with at most ``int_digits`` integer digits (``int_digits_neg`` when negative: the sign takes a column)"""
+    neg, mag = F.rand_fx(rng, d, int_digits, int_digits_neg)
+    return (neg, mag, -d)
+
+
+# ---------------------------------------------------------------------------------------------
+# VASP CHGCAR / LOCPOT
+
+VASP_DIMS = [(1, 1, 1), (2, 3, 4), (7, 1, 2), (3, 5, 2), (1, 6, 3), (4, 4, 4), (5, 2, 7), (2, 7, 1), (6, 3, 5), (3, 1, 1), (1, 1, 5), (7, 7, 2)]
+VASP_SCALES = [100000000000000, 50000000000000, 357000000000000, 1000000000000000, 99999999999999, 250000000000000]
+
+
+def vasp_gen(rng, i, thorough):
+    sym_z = [1, 5, 6, 7, 8, 14, 26, 29, 78, 92, 118, 2]
+    shape = VASP_DIMS[i % len(VASP_DIMS)] if i < 2 * len(VASP_DIMS) else tuple(rng.randint(1, 7) for _ in range(3))
+    ortho = rng.random() < 0.25
+    cell = []
+    for r in range(3):
+        row = []
+        for c in range(3):
+            if r == c:
+                row.append((False, rng.randint(2_000_000, 15_000_000), -6))
+            elif ortho:
+                row.append((False, 0, -6))
+            else:
+                row.append((rng.random() < 0.5, rng.randint(0, 900_000), -6))
+        cell.append(row)
+    nel = rng.randint(1, 3)
+    zs = rng.sample(sym_z, nel)
+    elems = [(z, rng.randint(1, 3)) for z in zs]
+    natom = sum(c for _, c in elems)
+    cart = rng.random() < 0.5
+    coords = [[rand_fixed(rng, 6, *((2, 1) if cart else (1, 1))) for _ in range(3)] for _ in range(natom)]
+    sel = rng.random() < 0.4
+    vals = [rand_enum(rng, 11, emax=60) for _ in range(shape[0] * shape[1] * shape[2])]
+    per = rng.choice([5, 5, 5, 10, 1, 2, 3, 4, 6, 7])
+    chunks = [vals[k:k + per] for k in range(0, len(vals), per)]
+    kind = "chgcar" if i % 2 == 0 else "locpot"
+    tail = []
+    if kind == "chgcar" and rng.random() < 0.5:
+        tail = ["augmentation occupancies   1  15", "  0.2743786E+00 -0.3307158E-01  0.0000000E+00  0.0000000E+00  0.0000000E+00"]
+    m = {"kind": kind, "title": F.rand_title(rng, allow_empty=False), "scaling": (False, rng.choice(VASP_SCALES), -14), "cell": cell,
+         "elems": elems, "sel": sel, "cart": cart, "coords": coords, "flags": [rng.choice("TF") for _ in range(3)], "shape": shape,
+         "chunks": chunks, "tail": tail}
+    cls = f"{kind}/{'x'.join(map(str, shape))}/{'ortho' if ortho else 'tric'}/{'cart' if cart else 'direct'}/sel={int(sel)}/per={per}"
+    return m, cls
+
+
+def vasp_enc(m):
+    flat = lambda rows: F.enc_list([x for r in rows for x in r], enc_num)  # noqa: E731
+    return ";".join([
+        F.enc_str(m["title"]), enc_num(m["scaling"]), flat(m["cell"]), F.enc_list(m["elems"], lambda e: f"{e[0]}:{e[1]}"),
+        str(int(m["sel"])), str(int(m["cart"])), flat(m["coords"]), F.enc_list(m["flags"], F.enc_str),
+        ".".join(map(str, m["shape"])), F.enc_list(m["chunks"], lambda c: F.enc_list(c, enc_num), "|"),
+        F.enc_list(m["tail"], lambda l: F.enc_str(l + "\n"))])
+
+
+def vasp_write(m):
+    """independent writer of the VASP 5 CHGCAR/LOCPOT layout"""
+    from iodata.periodic import num2sym
+
+    L = [m["title"], fixed_text(m["scaling"], 14, 19)]
+    for row in m["cell"]:
+        L.append("".join(fixed_text(x, 6, 13) for x in row))
+    L.append("".join(f"{num2sym[z]:>5s}" for z, _ in m["elems"]))
+    L.append("".join(f"{c:6d}" for _, c in m["elems"]))
+    if m["sel"]:
+        L.append("Selective dynamics")
+    L.append("Cartesian" if m["cart"] else "Direct")
+    for row in m["coords"]:
+        L.append("".join(fixed_text(x, 6, 10) for x in row) + ("".join(f"   {f}" for f in m["flags"]) if m["sel"] else ""))
+    L.append("")
+    L.append("".join(f"{n:5d}" for n in m["shape"]))
+    for c in m["chunks"]:
+        L.append("".join(fortran_e(x, 11, 18, "E", lead0=not x[0]) for x in c))
+    return ("\n".join(L) + "\n").encode() + "".join(l + "\n" for l in m["tail"]).encode()
+
+
+def _vasp_units():
+    from iodata.utils import angstrom, electronvolt
+
+    return Fraction(angstrom), Fraction(electronvolt)
+
+
+def vasp_expect(m):
+    """what the file denotes, exactly (rationals), in the driver's encoding"""
+    ang, ev = _vasp_units()
+    sc = num_frac(m["scaling"])
+    cellv = [[num_frac(x) * (ang * sc) for x in row] for row in m["cell"]]
+    if m["cart"]:
+        coords = [[num_frac(x) * ang * sc for x in row] for row in m["coords"]]
+    else:
+        coords = [[sum(num_frac(row[i]) * cellv[i][j] for i in range(3)) for j in range(3)] for row in m["coords"]]
+    nx, ny, nz = m["shape"]
+    axes = [[cellv[i][j] / m["shape"][i] for j in range(3)] for i in range(3)]
+    (a, b, c), (d, e, f), (g, h, k) = cellv
+    det = a * (e * k - f * h) - b * (d * k - f * g) + c * (d * h - e * g)
+    fac = 1 / abs(det) if m["kind"] == "chgcar" else ev
+    vals = [x for ch in m["chunks"] for x in ch]
+    data = [num_frac(vals[i + nx * (j + ny * l)]) * fac for i in range(nx) for j in range(ny) for l in range(nz)]
+    atnums = [z for z, c in m["elems"] for _ in range(c)]
+    flat = lambda rows: F.enc_list([x for r in rows for x in r], enc_rat)  # noqa: E731
+    return "ok " + ";".join([F.enc_str(m["title"]), F.enc_list(atnums, str), flat(cellv), flat(coords), f"{nx}.{ny}.{nz}",
+                             flat(axes), F.enc_list(data, enc_rat)])
+
+
+def vasp_impl(raw, ref, kind):
+    """load with the real code and snap every number onto the reference line ``ref`` (exact rationals)"""
+    r = F.real_load(raw, kind)
+    if not r.ok:
+        return "err " + r.err
+    if not ref.startswith("ok "):
+        return "ok <loaded>"
+    d = r.value
+    rf = ref[3:].split(";")
+    if len(rf) != 7:
+        return "ok <reference malformed>"
+    toks = lambda s: [] if s == "@" else s.split(",")  # noqa: E731
+    cell_ref = [abs(dec_rat(t)) for t in toks(rf[2])]
+    floor = REL * max(cell_ref, default=Fraction(0)) * 512
+    cube = d.cube
+    return "ok " + ";".join([
+        F.enc_str(d.title), F.enc_list([int(z) for z in d.atnums], str),
+        snap_list(d.cellvecs.ravel(), toks(rf[2])), snap_list(d.atcoords.ravel(), toks(rf[3]), floor),
+        ".".join(str(int(n)) for n in cube.data.shape), snap_list(cube.axes.ravel(), toks(rf[5])),
+        snap_list(cube.data.ravel(), toks(rf[6]))])
+
+
 FORMATS = {
-    "glog": dict(gen=glog_gen, enc=glog_enc, write=glog_write, expect=glog_expect, impl=glog_impl_line, fmt="gaussianlog",
-                 n=(36, 300)),
+    "glog": dict(fields=["one_ints.olp", "one_ints.kin_ao", "one_ints.na_ao", "two_ints.er_ao"], gen=glog_gen, enc=glog_enc, write=glog_write, expect=glog_expect, impl=lambda raw, ref, m: glog_impl_line(raw),
+                 fmt="gaussianlog", n=(36, 300), load=lambda m: "glog"),
+    "vasp": dict(fields=["title", "atnums", "cellvecs", "atcoords", "cube.shape", "cube.axes", "cube.data"], gen=vasp_gen, enc=vasp_enc, write=vasp_write, expect=vasp_expect,
+                 impl=lambda raw, ref, m: vasp_impl(raw, ref, m["kind"]), fmt="chgcar/locpot", n=(36, 300), load=lambda m: m["kind"]),
 }
 
 
-def _diff_kind(a: str, b: str):
+def _diff_kind(a: str, b: str, names=None):
     if a.startswith("err") or b.startswith("err"):
         return "load-fails" if a.startswith("err") else "unexpected-ok"
     pa, pb = a[3:].split(";"), b[3:].split(";")
     for k, (x, y) in enumerate(zip(pa, pb)):
         if x != y:
+            nm = names[k] if names and k < len(names) else f"field{k}"
             xs, ys = x.split(","), y.split(",")
-            if len(xs) != len(ys):
-                return f"field{k}:shape"
-            return f"field{k}:value"
+            if len(xs) != len(ys) or x.startswith("!shape"):
+                return f"{nm}:shape"
+            return f"{nm}:value"
     return "fields"
 
 
 def run_format(ctx, key, n, do_corr=True):
-    """spec-writers-agree / spec-load (direct, real code vs the model the file was written from) / load-spec (Lean reader)"""
+    """spec-writers-agree / spec-load (direct: real code vs the model the file was written from) / load-spec (Lean reader).
+    Values that went through floating-point arithmetic are compared exactly-rationally: the implementation's line is built by
+    snapping each loaded double onto the reference line (see ``snap_list``)."""
     fm = FORMATS[key]
     rng = ctx.rng
     ms = [fm["gen"](rng, i, ctx.thorough) for i in range(n)]
@@ -450,15 +658,15 @@ def run_format(ctx, key, n, do_corr=True):
             k = next((i for i, (a, b) in enumerate(zip(py, raw)) if a != b), min(len(py), len(raw)))
             ctx.obligation(f"spec-writers-agree:{key}", False,
                            f"Lean specRender and the Python spec writer differ at byte {k}: {raw[max(0, k - 60):k + 40]!r} vs {py[max(0, k - 60):k + 40]!r}")
-        line = fm["impl"](py, m) if fm.get("impl_needs_model") else fm["impl"](py)
         expect = fm["expect"](m)
+        line = fm["impl"](py, expect, m)
         ok = line == expect
         ctx.count(f"spec-load:{key}", fm["enc"](m), cls + ("" if ok else "/DIFF"), sample={"format": key, "class": cls})
         if not ok:
-            sig = f"{key}:spec:{_diff_kind(line, expect)}"
+            sig = f"{key}:spec:{_diff_kind(line, expect, fm.get('fields'))}"
             ctx.fail(sig, f"{fm['fmt']}: a file following the published layout is not loaded as written ({sig}; class {cls})",
-                     {"kind": "readers", "format": key, "hex": py.hex(), "expect": expect, "model": fm["enc"](m)})
-        lreq.append(f"fmtr load {key} {raw.hex()}")
+                     {"kind": "readers", "format": key, "sub": fm["load"](m), "hex": py.hex(), "expect": expect})
+        lreq.append(f"fmtr load {fm['load'](m)} {raw.hex()}")
         limp.append(line)
         lcls.append(cls)
     if do_corr:
@@ -472,20 +680,17 @@ def correspond(ctx):
 
 
 def corpus_corr(ctx):
-    """the Lean readers on the repository's own fixtures"""
+    """the Lean readers on the repository's own fixtures (the reference for snapping is the model's own answer)"""
     ddir = engine.REPO / "iodata" / "test" / "data"
-    req, imp, cls = [], [], []
-    for key, name in CORPUS:
-        raw = (ddir / name).read_bytes()
-        fm = FORMATS[key]
-        req.append(f"fmtr load {key} {raw.hex()}")
-        imp.append(fm["impl"](raw, None) if fm.get("impl_needs_model") else fm["impl"](raw))
-        cls.append(name)
+    req = [f"fmtr load {sub} {(ddir / name).read_bytes().hex()}" for key, sub, name in CORPUS]
+    refs = ctx.driver(req)
+    imp = [FORMATS[key]["impl"]((ddir / name).read_bytes(), ref, {"kind": sub}) for (key, sub, name), ref in zip(CORPUS, refs)]
     if req:
-        ctx.corr("load-corpus", req, imp, None, cls)
+        ctx.corr("load-corpus", req, imp, None, [name for _, _, name in CORPUS])
 
 
-CORPUS = [("glog", "water_sto3g_hf_g03.log")]
+CORPUS = [("glog", "glog", "water_sto3g_hf_g03.log"), ("vasp", "chgcar", "CHGCAR.oxygen"), ("vasp", "chgcar", "CHGCAR.water"),
+          ("vasp", "locpot", "LOCPOT.oxygen")]
 
 
 def search(ctx):
@@ -498,9 +703,7 @@ def replay(ctx, obj):
     inp = obj["input"]
     if inp.get("kind") == "readers":
         fm = FORMATS[inp["format"]]
-        raw = bytes.fromhex(inp["hex"])
-        line = fm["impl"](raw, None) if fm.get("impl_needs_model") else fm["impl"](raw)
-        return line != inp["expect"]
+        return fm["impl"](bytes.fromhex(inp["hex"]), inp["expect"], {"kind": inp.get("sub")}) != inp["expect"]
     return None
 
 
